@@ -15,7 +15,7 @@ package main
 //   cseq <lifetime ms> <ev>,<ev>,…                    a<ms> | c<hex user>:<T|G|F|E> | g<hex user> | p<hex user>:<0|1>
 // Output
 //   cfg/grp/usr/endcfg: ok
-//   req:  st=<code|PANIC> chg=<hex,…|-> read=<hex|none> list=<0|1> cert=<hex|none>
+//   req:  st=<code|PANIC> chg=<h+hex,…|-> read=<h+hex|none> list=<0|1> cert=<h+hex|none>
 //   cseq: one token per c/g/p event: c<0|1>  g<isAdmin><valid>  p
 
 import (
@@ -28,6 +28,7 @@ import (
 	"crypto/x509/pkix"
 	"encoding/base64"
 	"encoding/binary"
+	"encoding/hex"
 	"encoding/json"
 	"encoding/pem"
 	"fmt"
@@ -81,6 +82,9 @@ func c08NewSoftU2F(t *testing.T) *c08SoftU2F {
 	}
 	return &c08SoftU2F{attKey: k, attCert: der}
 }
+
+// c08H: "h" + hex, so that the empty name ("h") differs from "no name" ("-" / "none")
+func c08H(s string) string { return "h" + hex.EncodeToString([]byte(s)) }
 
 func c08B64(b []byte) string { return strings.TrimRight(base64.URLEncoding.EncodeToString(b), "=") }
 
@@ -464,7 +468,7 @@ func (e *c08Env) doReq(f []string) string {
 	for _, n := range watch {
 		after := e.raw(n)
 		if (after == nil) != (before[n] == nil) || !bytes.Equal(after, before[n]) {
-			changed = append(changed, vfHex(n))
+			changed = append(changed, c08H(n))
 		}
 	}
 	sort.Strings(changed)
@@ -479,7 +483,7 @@ func (e *c08Env) doReq(f []string) string {
 		switch op {
 		case "view":
 			if m := c08UsernameRE.FindStringSubmatch(bodyS); m != nil {
-				read = vfHex(m[1])
+				read = c08H(m[1])
 			} else {
 				read = "unparsed"
 			}
@@ -496,7 +500,7 @@ func (e *c08Env) doReq(f []string) string {
 		case "role":
 			if blk, _ := pem.Decode([]byte(bodyS)); blk != nil {
 				if c, err := x509.ParseCertificate(blk.Bytes); err == nil {
-					cert = vfHex(c.Subject.CommonName)
+					cert = c08H(c.Subject.CommonName)
 				} else {
 					cert = "unparsed"
 				}
@@ -511,7 +515,7 @@ func (e *c08Env) doReq(f []string) string {
 		cur := e.raw(n)
 		dirty := false
 		for _, c := range changed {
-			if c == vfHex(n) {
+			if c == c08H(n) {
 				dirty = true
 			}
 		}
